@@ -514,6 +514,18 @@ def b14_case(spec):
         if surplus or missing:
             fail("edge set (one per face edge record; unattached dropped)",
                  "missing=%s surplus=%s" % (sorted(missing)[:5], sorted(surplus)[:5]))
+        # a dropped edge leaves no trace: every kept vertex lists exactly the kept edges ending at it (Frame splits
+        # interfaces at vertices with more than two listed edges, so a stale entry changes what a frame reports)
+        ends = {}
+        for k, e in es.items():
+            for v in (e.v1, e.v2):
+                ends.setdefault(getattr(v, "id", None), set()).add(k)
+        for k in sorted(vs):
+            listed = sorted(vs[k].ownEdges)
+            if listed != sorted(ends.get(k, set()) - ({exp["chord_id"]} if chord_kept else set())) and listed != sorted(ends.get(k, set())):
+                fail("vertices list exactly the kept edges ending at them (dropped edges leave no trace)",
+                     "vertex %d lists edges %s, the parsed edges ending at it are %s" % (k, listed[:8], sorted(ends.get(k, set()))[:8]))
+                break
         for k in sorted(set(es) & set(ee)):
             e = es[k]
             r = ee[k]
@@ -844,6 +856,11 @@ def b19_case(spec):
     # ---- forsys
     try:
         kw = {} if spec["md"] == "default" else dict(max_distance=spec_md)
+        if regs:                # a sweep of the cut-off over the same centres, tight first: the measured call must not see the earlier one
+            try:
+                ft.create_lattice_elements(centres, max_distance=float(sorted(x[2] for x in regs)[len(regs) // 2]))
+            except Exception:      # noqa
+                pass
         el = ft.create_lattice_elements(centres, **kw)
         vs, es, cs = ft.create_lattice(*el)
     except Exception:
